@@ -9,6 +9,8 @@ import TracklibVerif.Drv.Util
   splitidx <limit> <indices> <points>  → `split(track, [indices], limit)`: pieces, or `err:index`
   collsplit <markers|markers|…>   → `TrackCollection.split_segmentation`: pieces of every track in turn, the
                                     observations being numbered through the whole collection
+  collseg <mode> <thresholds> <rows|rows|…>  → `TrackCollection.segmentation` then `split_segmentation`:
+                                    `<markers|markers|…> <pieces>`, or `err:index`
   marker <mode and|or> <thresholds> <rows: per observation the tested values>
                                   → marker string (`_` for no observation), or `err:index`
   segsplit <mode> <thresholds> <rows>  → `<marker string> <pieces>` : `segmentation()` then `split()` on its marker
@@ -86,6 +88,12 @@ def segSeq (t : FTrack Ext) : List String → Option (Except String (FTrack Ext)
     | _, _ => none
   | _ => none
 
+/-- numbers the observations through the whole collection and splits every track -/
+def collPieces (tracks : List (List Bool)) : List (List Nat) :=
+  let offs := tracks.foldl (fun (acc : List Nat × Nat) t => (acc.1 ++ [acc.2], acc.2 + t.length)) ([], 0)
+  let tagged := (tracks.zip offs.1).map (fun (t, o) => ((List.range t.length).map (· + o)).zip t)
+  splitColl tagged
+
 def handle (cmd : String) (args : List String) : String :=
   match cmd, args with
   | "split", [m] =>
@@ -108,11 +116,17 @@ def handle (cmd : String) (args : List String) : String :=
     | _, _, _ => "bad-request"
   | "collsplit", [ms] =>
     match (ms.splitOn "|").mapM marks? with
-    | some tracks =>
-      let offs := tracks.foldl (fun (acc : List Nat × Nat) t => (acc.1 ++ [acc.2], acc.2 + t.length)) ([], 0)
-      let tagged := (tracks.zip offs.1).map (fun (t, o) => ((List.range t.length).map (· + o)).zip t)
-      showPieces (splitColl tagged)
+    | some tracks => showPieces (collPieces tracks)
     | none => "bad-request"
+  | "collseg", [mode, ths, rowss] =>
+    match extList? ths, (rowss.splitOn "|").mapM rows? with
+    | some th, some tracks =>
+      if mode == "and" || mode == "or" then
+        match tracks.mapM (markers Ext.fmax (mode == "and") th) with
+        | some ms => s!"{"|".intercalate (ms.map showMarks)} {showPieces (collPieces ms)}"
+        | none => "err:index"
+      else "bad-request"
+    | _, _ => "bad-request"
   | "segseq", size :: virt :: feats :: calls =>
     match size.toNat?, table? virt, table? feats with
     | some n, some v, some f =>
